@@ -39,21 +39,27 @@ CORE_KINDS = [
     "if", "for", "forl", "defb", "defa", "block", "ablock", "calltag", "include", "ns", "inh",
 ]
 
-QUICK2_KINDS = ["t2", "c3", "mod", "if", "forl", "defb", "block", "calltag", "include", "inh"]
+QUICK2_KINDS = ["t2", "c3", "mod", "if", "forl", "defb", "block", "ablock", "calltag", "include", "inh"]
+
+W3_KINDS = ["c3", "mod", "if", "forl", "defb", "block", "calltag", "include"]
+WARN2_KINDS = QUICK2_KINDS + ["ns"]
 
 BOUNDS = {
     "quick": {
-        "raise_full_product": "weight<=1, all kinds x all paths, LF and CRLF",
-        "raise_rotated": "weight 2 over the 21 core kinds: every (program,position,kind) on one rotating path + the 2 principal kinds on all 5 paths",
+        "raise_full_product": "weight<=1 over all 32 kinds, LF: every position x 12 raise kinds x 5 paths",
+        "raise_rotated": "weight 2 over 11 kinds (QUICK2_KINDS) LF and weight<=1 over all kinds CRLF: every (program,position,kind) "
+        "on one rotating path + the 2 principal kinds on all 5 paths + format_exceptions on one path",
         "warn": "weight<=1 (all kinds, LF): every position x 8 warning plants x 5 paths x {always,once,error}",
-        "raise_kinds": len(c12_ir.RAISE_KINDS),
+        "raise_kinds": c12_ir.RAISE_KINDS,
+        "warn_kinds": c12_ir.WARN_KINDS,
         "paths": PATHS,
     },
     "thorough": {
-        "raise_full_product": "weight<=2 over all 32 kinds, all raise kinds x all paths (LF); weight<=1 CRLF",
-        "raise_rotated": "weight 3 over the 21 core kinds (rotating path + principal kinds on all paths); weight 2 all kinds CRLF rotated",
-        "warn": "weight<=2 (all kinds): every position x 8 warning plants x 5 paths x {always,once,error}",
-        "raise_kinds": len(c12_ir.RAISE_KINDS),
+        "raise_full_product": "weight<=2 over all 32 kinds, LF: every position x 12 raise kinds x 5 paths",
+        "raise_rotated": "weight 3 over 8 kinds (W3_KINDS) LF; weight<=2 over the 21 core kinds CRLF (rotating path + principal kinds on all paths)",
+        "warn": "weight<=1 all kinds LF and CRLF, weight 2 over 12 kinds (WARN2_KINDS) LF: every position x 8 warning plants x 5 paths x {always,once,error}",
+        "raise_kinds": c12_ir.RAISE_KINDS,
+        "warn_kinds": c12_ir.WARN_KINDS,
         "paths": PATHS,
     },
 }
@@ -281,7 +287,8 @@ class Checker:
             obs.append((uri, ln))
             lines = src.split("\n")
             if isinstance(ln, int) and 1 <= ln <= len(lines):
-                if r[6] != lines[ln - 1]:
+                # a CRLF template: the line with or without its CR is that line of the template
+                if r[6] != lines[ln - 1] and r[6] != lines[ln - 1].rstrip("\r"):
                     self.bad("tb:template-line-text", "source line of the record is not that line of the template", lines[ln - 1], r[6])
             fmt.append((r[4], r[5], r[2], r[6]))
         st.oracles["chain"] += 1
@@ -456,6 +463,8 @@ class Runner:
             err = tb = None
             shutil.rmtree(d, ignore_errors=True)
         st.outcomes[label] += 1
+        if st.evaluations % 1499 == 1:
+            st.sample({"case": case, "files": low.files, "outcome": label, "expected_chain": ref[2] if ref[0] == "raise" else None})
         self.report(ck, case, "traceback")
         return label
 
@@ -545,6 +554,8 @@ class Runner:
         finally:
             shutil.rmtree(d, ignore_errors=True)
         st.outcomes[label] += 1
+        if st.evaluations % 1499 == 1:
+            st.sample({"case": case, "files": low.files, "outcome": label, "expected_warnings": expected})
         self.report(ck, case, "warnings")
         return label
 
@@ -567,9 +578,10 @@ def tier_spec(tier):
         ]
     return [
         ("full-w2", [0, 1, 2], A, ["\n"], "full"),
-        ("rot-w3", [3], Q, ["\n"], "rotated"),
+        ("rot-w3", [3], W3_KINDS, ["\n"], "rotated"),
         ("rot-w2-crlf", [0, 1, 2], C, ["\r\n"], "rotated"),
-        ("warn-w2", [0, 1, 2], C, ["\n"], "warn"),
+        ("warn-w1", [0, 1], A, ["\n"], "warn"),
+        ("warn-w2", [2], WARN2_KINDS, ["\n"], "warn"),
         ("warn-w1-crlf", [0, 1], A, ["\r\n"], "warn"),
     ]
 
